@@ -504,7 +504,7 @@ func eScenario(r *rand.Rand) ([]database.Command, string, eOpts) {
 		}
 		o.Limit = []int{0, 3, 10}[r.Intn(3)]
 		o.Fuzzy = true
-		o.Threshold = []int{0, -500, -1000}[r.Intn(3)]
+		o.Threshold = []int{0, -120, -150, -200, -300, -500, -1000}[r.Intn(7)]
 		o.AllPlatforms = true
 		return cmds, []string{"comprss", "archve", "cmprs arch"}[r.Intn(3)], o
 	default:
@@ -538,5 +538,24 @@ func eSharedTieScenario(r *rand.Rand) ([]database.Command, string, eOpts) {
 		o.AllPlatforms = true
 		r.Shuffle(len(words), func(i, j int) { words[i], words[j] = words[j], words[i] })
 		return cmds, strings.Join(words, " "), o
+	}
+}
+
+// eBoostFromQuery: half of the time the context boosts name a word of the query itself (an action or target word, often),
+// and a second key that contains that word among others (script and make-target names look like that)
+func eBoostFromQuery(r *rand.Rand, q string, o *eOpts) {
+	if len(o.Boosts) == 0 || r.Intn(2) != 0 {
+		return
+	}
+	ws := strings.Fields(strings.ToLower(q))
+	if len(ws) == 0 {
+		return
+	}
+	w := ws[r.Intn(len(ws))]
+	o.Boosts[0].Word = ints(w)
+	o.Boosts[0].F = []string{"1.1", "1.3", "1.5"}[r.Intn(3)]
+	if len(o.Boosts) > 1 && r.Intn(2) == 0 {
+		o.Boosts[1].Word = ints(w + []string{"-", ":", "_", "."}[r.Intn(4)] + eWord(r))
+		o.Boosts[1].F = []string{"1.2", "1.7", "2.5"}[r.Intn(3)]
 	}
 }
